@@ -1044,6 +1044,24 @@ func (a *idxAnalyzer) refine(z *zone, e ast.Expr, truth bool) {
 			if z.le(t, zeroTerm, v) && !z.le(t, zeroTerm, v-1) {
 				z.add(t, zeroTerm, v-1)
 			}
+		} else if len(d.t) == 2 {
+			// p - q + c != 0 with p - q + c <= 0 known ⇒ p - q + c <= -1 (pos != len(input) after pos <= len(input))
+			var p, q string
+			for t, v := range d.t {
+				switch v {
+				case 1:
+					p = t
+				case -1:
+					q = t
+				}
+			}
+			if p != "" && q != "" {
+				if z.le(p, q, -d.c) {
+					z.add(p, q, -d.c-1)
+				} else if z.le(q, p, d.c) {
+					z.add(q, p, d.c-1)
+				}
+			}
 		}
 	}
 }
